@@ -33,7 +33,8 @@ RULE = ("case = rigid diagram over names x, y, z with winding numbers -3..3 "
         "cap-then-cup loops, cap/cup pairs whose adjoints do NOT match, then "
         "scrambled by 0-15 legal interchanges so that obstructions interleave "
         "on both sides.  Non-trivial = at least one snake was removed after "
-        "at least one obstruction was moved; distinct by diagram repr.")
+        "at least one obstruction was moved; distinct by diagram repr."
+        "  Also: yielded steps re-checked after the trace; normal form fed back in.")
 SIZES = {"quick": (16, 110), "thorough": (16, 3200)}
 TIMEOUT = {"quick": 900, "thorough": 7200}
 COVER = {"discopy.rewriting:snake_removal": 0.9,
